@@ -56,6 +56,18 @@ def check_event(s, ev, out):
             'handout/queue-conservation',
             f'released-not-handed={queued} farm._cluster={in_cluster}',
         )
+    # (ii') what the scheduler counts as executing is somewhere: handed,
+    # queued in the farm, or held by a dispatch that failed half-way
+    for tag, n in s.nodes.items():
+        gone = set(n.get('doing')) - s.executing(tag)
+        if gone:
+            out.fail(
+                'handout/released-unit-vanished',
+                f'{tag}{sorted(gone)} is marked executing by the scheduler '
+                f'but is neither handed to a worker nor queued in the farm '
+                f'(_jobs={[j.tag for j in s.farm._jobs]}); op={ev["op"]} '
+                f'fault={ev.get("fault")}')
+            break
     # (iv) crew view == handed and unanswered
     busy = sorted(b.split(' duration:')[0] for b in s.farm.crew()['busy'])
     want = sorted(f'{u.jobid}[{u.target}]' for u in s.handed())
@@ -148,6 +160,11 @@ def parts(tier):
             'history', execute,
             strategy=sim.histories(weights={'rereq': 4, 'leave': 1}),
             cases=1600 if q else 50000, batch=200,
+        ),
+        core.Part(
+            'faults', execute,
+            strategy=sim.histories(weights={'rereq': 3, 'dbfault': 3}),
+            cases=400 if q else 12500, batch=200,
         ),
         core.Part('cluster', execute, strategy=_cluster(),
                   cases=120 if q else 3000, batch=40),
